@@ -261,6 +261,14 @@ def replay_file(binaries, path, trace=False):
 
 # ---------------------------------------------------------------------------- per-property configuration
 
+def history_table_size():
+    exe = os.path.join(BUILD, "asan", "cellsim")
+    try:
+        return int(subprocess.check_output([exe, "sweepsize", "history"], text=True).strip())
+    except Exception:
+        return 1169
+
+
 def batches_for(prop, tier):
     q = tier == "quick"
     if prop == "C18":
@@ -279,7 +287,8 @@ def batches_for(prop, tier):
         ]
     if prop == "C09":
         return [
-            Batch("history", "asan", 1106 * (2 if q else 12), {"table": 1}, "history/entry-point-x-badness-table"),
+            # one run per (entry point, argument slot) x badness kind; the size of the table is asked from the simulator
+            Batch("history", "asan", history_table_size() * (2 if q else 12), {"table": 1}, "history/entry-point-x-badness-table"),
             Batch("history", "asan", 5000 if q else 400000, {}, "history/seeded-histories"),
         ]
     if prop == "C11":
